@@ -347,6 +347,19 @@ func c10SgxDER(r *mc.Run, b *c01base) {
 		m2[nd[1]] = 0x84
 		cases = append(cases, dcase{fmt.Sprintf("sgxder/longlen@%d", nd[0]), m2})
 	}
+	// every byte of the encoding at a menu of values (OID arcs, integer contents, string contents, lengths)
+	for off := range good {
+		seen := map[byte]bool{good[off]: true}
+		for _, v := range []byte{0x00, 0x01, 0x7f, 0x80, 0xff, good[off] ^ 1, good[off] + 1, good[off] - 1, good[off] ^ 0x80} {
+			if seen[v] {
+				continue
+			}
+			seen[v] = true
+			m := append([]byte(nil), good...)
+			m[off] = v
+			cases = append(cases, dcase{fmt.Sprintf("sgxder/byte@%d=%#x", off, v), m})
+		}
+	}
 	cases = append(cases, dcase{"sgxder/empty", []byte{}}, dcase{"sgxder/null", []byte{5, 0}}, dcase{"sgxder/emptyseq", []byte{0x30, 0}})
 	pki := b.w.PKI
 	done := r.Parallel(len(cases), func(i int) {
